@@ -11,6 +11,12 @@
 
 #include "private.h"
 
+#if defined(TUKAANI_PROJECT_XZ_VERIF) && !defined(VERIF_IO_READ_LOOP_CONTRACT)
+// Verification hooks: /verif's harness defines these to CBMC loop contracts.
+#	define VERIF_IO_READ_LOOP_CONTRACT
+#	define VERIF_IO_WRITE_BUF_LOOP_CONTRACT
+#endif
+
 #include <fcntl.h>
 
 #ifdef TUKLIB_DOSLIKE
@@ -1244,7 +1250,11 @@ io_read(file_pair *pair, io_buf *buf, size_t size)
 
 	size_t pos = 0;
 
+#ifdef TUKAANI_PROJECT_XZ_VERIF
+	while (pos < size) VERIF_IO_READ_LOOP_CONTRACT {
+#else
 	while (pos < size) {
+#endif
 		const ssize_t amount = read(
 				pair->src_fd, buf->u8 + pos, size - pos);
 
@@ -1371,7 +1381,11 @@ io_write_buf(file_pair *pair, const uint8_t *buf, size_t size)
 {
 	assert(size <= IO_BUFFER_SIZE);
 
+#ifdef TUKAANI_PROJECT_XZ_VERIF
+	while (size > 0) VERIF_IO_WRITE_BUF_LOOP_CONTRACT {
+#else
 	while (size > 0) {
+#endif
 		const ssize_t amount = write(pair->dest_fd, buf, size);
 		if (amount == -1) {
 			if (errno == EINTR) {
